@@ -7,5 +7,10 @@ CONSTANTS
   Frames = {}
   MaxFrames = 0
   CrcCounted = TRUE
+  PayFrames = {}
+  PayHeads = {}
+  TwiceLens = {}
+  PassThrough = FALSE
+  LenMod = 0
 INVARIANTS AscOk FieldsOk HdrOk ObjOk HzOk
 CHECK_DEADLOCK FALSE
